@@ -85,7 +85,6 @@ pub open spec fn rev_fold(w: World, factory: Seq<char>, ops: Seq<SwapOperation>,
 }
 //%fn contracts/halo-router/src/contract.rs | - | simulate_swap_operations
 //%%rewrite #1 /for operation in operations\.into_iter\(\) \{/ => for operation in it: operations.into_iter() { ## name the loop's ghost iterator
-//%%rewrite #1 /Addr::unchecked\(pair_info\.contract_addr\)/ => addr_unchecked_string(pair_info.contract_addr) ## shim: Addr::unchecked(String) has the argument as its text
 //%%sig
     ensures
         /*[C12,C13 route-sim.composition]*/ r is Ok ==> deps.storage.config is Some && operations@.len() > 0
@@ -107,7 +106,6 @@ pub open spec fn rev_fold(w: World, factory: Seq<char>, ops: Seq<SwapOperation>,
 //%end
 
 //%fn contracts/halo-router/src/contract.rs | - | reverse_simulate_return_amount
-//%%rewrite #1 /Addr::unchecked\(pair_info\.contract_addr\)/ => addr_unchecked_string(pair_info.contract_addr) ## shim: Addr::unchecked(String) has the argument as its text
 //%%sig
     ensures
         /*[C12 route-rev.hop]*/ r is Ok ==> r->Ok_0 == rev_offer(deps.querier.world(), pair_of(deps.querier.world(), factory.0@, offer_asset_info, ask_asset_info), Asset { info: ask_asset_info, amount: ask_amount }),
